@@ -50,7 +50,10 @@ def mutation(draw, spec, serial=0):
     if op['t'] == 'channel' and op.get('data') and spec['write'].get('source') == 'dict' and not op.get('cast'):
         kinds += ['data', 'data-same-type', 'data-same-type']
     if op['t'] == 'channel' and op.get('data'):
-        kinds += ['cast']
+        kinds += ['cast', 'dimension']
+        if op.get('cast'):
+            kinds += ['cast-clear']
+    kinds += ['hdr-seq'] if draw(st.integers(0, 5)) == 0 else []
     if not kinds:
         return {'kind': 'none', 'op': j}
     kind = draw(st.sampled_from(kinds))
@@ -78,6 +81,13 @@ def mutation(draw, spec, serial=0):
             vals = (np.arange(n) * step if mode == 1 else np.cumsum(np.arange(n) % 3 + 1)).reshape(d['shape'])
             arr = vals.astype(np.dtype(d['dt']))
             m['data'] = {'dt': d['dt'], 'shape': d['shape'], 'hex': arr.tobytes().hex()}
+    elif kind == 'hdr-seq':
+        m['seq'] = draw(st.sampled_from([2, 77, 1234567890]))
+    elif kind == 'dimension':
+        w = list(op['data']['shape'][1:]) or [1]
+        m['dim'] = draw(st.sampled_from([w, [w[0] + 1], [max(1, w[0] - 1)]]))
+    elif kind == 'cast-clear':
+        pass
     elif kind == 'cast':
         from vf.spec.strategies import well_defined_cast, DTYPE_NAME
         c = well_defined_cast(draw, op['data']['dt'][1:], op['data'])
@@ -168,6 +178,12 @@ def apply_mutation_to_spec(spec, m):
         op['data'] = m['data']
     elif m['kind'] == 'cast':
         op['cast'] = m['cast']
+    elif m['kind'] == 'cast-clear':
+        op.pop('cast', None)
+    elif m['kind'] == 'dimension':
+        op.setdefault('attrs', {})['dimension'] = {'v': m['dim'], 'r': 'later'}
+    elif m['kind'] == 'hdr-seq':
+        spec['lfs'][0].setdefault('hdr', {})['seq'] = m['seq']
 
 
 def apply_mutation_to_objects(built, spec, m):
@@ -184,6 +200,12 @@ def apply_mutation_to_objects(built, spec, m):
     elif m['kind'] == 'cast':
         import numpy as np
         item.cast_dtype = getattr(np, m['cast'])
+    elif m['kind'] == 'cast-clear':
+        item.cast_dtype = None
+    elif m['kind'] == 'dimension':
+        item.dimension.value = m['dim']
+    elif m['kind'] == 'hdr-seq':
+        built.lfs[0].file_header.sequence_number = m['seq']
 
 
 def localise(a, b):
